@@ -55,9 +55,34 @@ def apply_renames(relpath, tu):
             continue
         K._renames_done = True
         old = rec[f]; cur = decl_list(tu['functions'][f])
-        if len(old) != len(cur) or any(str(a[1]) != str(b[1]) for a, b in zip(old, cur)):
-            continue
-        mp = {a[0]: b[0] for a, b in zip(old, cur) if a[0] != b[0]}
+        fn_node = tu['functions'][f]
+        npar_cur = len(cast.params_of(fn_node))
+        npar_old = sum(1 for _ in old[:npar_cur]) if len(old) >= npar_cur else None
+        mp = {}
+        # parameters: by position, whenever their number and types are unchanged (the recorded list starts with the parameters)
+        rec_par = rec.get('#npar:' + f)
+        if rec_par is None:
+            rec_par = npar_cur          # older snapshot: assume the number of parameters did not change
+        if rec_par == npar_cur and all(str(a[1]) == str(b[1]) for a, b in zip(old[:rec_par], cur[:npar_cur])):
+            mp.update({a[0]: b[0] for a, b in zip(old[:rec_par], cur[:npar_cur]) if a[0] != b[0]})
+            oldl, curl = old[rec_par:], cur[npar_cur:]
+        else:
+            oldl, curl = None, None
+        # locals: aligned on (name, type); a block of old declarations replaced by a block of the same length and types is a renaming, new
+        # declarations (temporaries) in between are ignored, removed ones are not mapped
+        if oldl is not None:
+            import difflib
+            sm = difflib.SequenceMatcher(a=[(x[0], str(x[1])) for x in oldl], b=[(x[0], str(x[1])) for x in curl], autojunk=False)
+            for tag, i1, i2, j1, j2 in sm.get_opcodes():
+                if tag == 'replace':
+                    ob = oldl[i1:i2]; nb = curl[j1:j2]
+                    # pair declarations of the same type in order (extra new declarations are temporaries)
+                    k = 0
+                    for o in ob:
+                        while k < len(nb) and str(nb[k][1]) != str(o[1]):
+                            k += 1
+                        if k < len(nb):
+                            mp[o[0]] = nb[k][0]; k += 1
         if not mp:
             continue
         # a pure renaming: injective, and no new name may capture an identifier the contract already uses for something else
